@@ -92,6 +92,16 @@ CLAIMS = {
               "Tie: translator + stream S15 (all directions incl. ulp-near axes, 7 range tuples at and around every range end, ALL sample sizes 1..5000 for the bins)."),
         note=TB + " atan2/degrees are a parameter d of the model; float rounding of 90-d is compared within 1e-9 circularly; the float np.arange edge count is only swept (1..5000), not proved.",
         ref="DESIGN.md section 6 C15", technique="Lean 4 theorems over regenerated functions + exhaustive sweep of the float-dependent bin count"),
+    "C16": dict(
+        text=("Proof (Lean 4, exact rationals): if some point of a geometry (inside its box A) is closer than tau to some point of a feature (inside its box B) then B meets A "
+              "extended by any margin mu >= tau (bbox_of_close; points of segments stay in the box of their ends), hence filtering a windowed query by any predicate that "
+              "implies 'within tau' equals filtering ALL features (C16_transparent, for every feature list, predicate, window). The margins are regenerated from the call "
+              "sites and proved to dominate the distances the consumers test: validation candidates t*m*k >= t, t*m, t*m*k for all t >= 0, m,k >= 1 (this was defect F5), "
+              "snapping 20t, junctions 10*t*m >= t*m, boundary 100t, proximal 5b. Tie: translator + stream S16: validation verdicts on near-threshold pairs (separations "
+              "inside/outside every tested distance, axis-parallel / rotated / end-of-trace / collinear, degenerate boxes) and planted-defect frames, and nodes / branches "
+              "/ crop / boundary counts / proximal flags on valid maps, each run twice in separate processes with SpatialIndex.intersection replaced by return-everything."),
+        note=TB + " partial: the point-query sites (node degree, branch-label node search: margin 0 < t) are transparent only on crisp inputs (coincident ends identical), which S16 samples on valid maps; gpd.clip's internal index use is geopandas', not a fractopo candidate search.",
+        ref="DESIGN.md section 6 C16", technique="Lean 4 geometric lemma + margin inequalities over regenerated window expressions; twin-run differential with a return-all index"),
     "C17": dict(
         text=("Proof (Lean 4) over a model of the joblib.Memory protocol (store keyed by (function, arguments); call = lookup, load, else compute and store; arbitrary damage "
               "or deletion of entries between calls; cache enabled or disabled): for EVERY history and every store satisfying the invariant, under the load law "
